@@ -18,12 +18,17 @@ def HooksTame (env : Env) : Prop :=
 
 def NoHook (r : RecRes) : Prop := r ≠ .error .hook
 
+theorem recDone_noHook (T : Ty) (amb : Option RecOut) : NoHook (recDone T amb) := by
+  unfold recDone
+  split <;> simp [NoHook, recOk]
+
 theorem recListItems_noHook (rec : Node → Ty → RecRes) (T itemTy : Ty)
-    (hrec : ∀ x, NoHook (rec x itemTy)) : ∀ items, NoHook (recListItems rec T itemTy items) := by
+    (hrec : ∀ x, NoHook (rec x itemTy)) : ∀ items amb, NoHook (recListItems rec T itemTy amb items) := by
   intro items
   induction items with
-  | nil => simp [recListItems, NoHook, recOk]
+  | nil => intro amb; simp only [recListItems]; exact recDone_noHook T amb
   | cons x xs ih =>
+    intro amb
     unfold recListItems
     have := hrec x
     split
@@ -31,17 +36,16 @@ theorem recListItems_noHook (rec : Node → Ty → RecRes) (T itemTy : Ty)
       intro h; cases h; exact this he
     · split
       · simp [NoHook]
-      · split
-        · simp [NoHook]
-        · exact ih
+      · exact ih _
 
 theorem recDictPairs_noHook (rec : Node → Ty → RecRes) (T K V : Ty)
     (hk : ∀ x, NoHook (rec x K)) (hv : ∀ x, NoHook (rec x V)) :
-    ∀ ps, NoHook (recDictPairs rec T K V ps) := by
+    ∀ ps amb, NoHook (recDictPairs rec T K V amb ps) := by
   intro ps
   induction ps with
-  | nil => simp [recDictPairs, NoHook, recOk]
+  | nil => intro amb; simp only [recDictPairs]; exact recDone_noHook T amb
   | cons p ps ih =>
+    intro amb
     obtain ⟨k, v⟩ := p
     unfold recDictPairs
     have h1 := hk k
@@ -52,15 +56,11 @@ theorem recDictPairs_noHook (rec : Node → Ty → RecRes) (T K V : Ty)
     · split
       · simp [NoHook]
       · split
-        · simp [NoHook]
+        · rename_i e he
+          intro h; cases h; exact h2 he
         · split
-          · rename_i e he
-            intro h; cases h; exact h2 he
-          · split
-            · simp [NoHook]
-            · split
-              · simp [NoHook]
-              · exact ih
+          · simp [NoHook]
+          · exact ih _
 
 theorem recUnionMembers_noHook (rec : Node → Ty → RecRes) (n : Node)
     (hrec : ∀ m, NoHook (rec n m)) : ∀ ms acc, recUnionMembers rec n ms acc ≠ .error .hook := by
@@ -287,14 +287,14 @@ theorem recognizeReq_noHook (env : Env) (ht : HooksTame env) :
       | seq k item =>
         simp only [recognizeReq, recList]
         split
-        · exact recListItems_noHook _ _ _ (fun x => ihT x item) _
+        · exact recListItems_noHook _ _ _ (fun x => ihT x item) _ _
         · simp [NoHook, recFail]
       | map k a b =>
         simp only [recognizeReq, recDict]
         split
         · simp [NoHook]
         · split
-          · exact recDictPairs_noHook _ _ _ _ (fun x => ihT x a) (fun x => ihT x b) _
+          · exact recDictPairs_noHook _ _ _ _ (fun x => ihT x a) (fun x => ihT x b) _ _
           · simp [NoHook, recFail]
       | cls c =>
         simp only [recognizeReq]
